@@ -58,7 +58,8 @@ let ops_case line =
 (* log mode: `ntree tree_id*  n  (side write ft id len hash effect)*`
    side 0 hot 1 cold; write 1/0; effect 1/0; content abstracted to [len; hash].
    Output: `ok <n>` or `viol <index of the first call after which inv_b is false>`,
-   then ` ca=<1|0>` (content addressing holds for hot-type files in the log). *)
+   then ` ca=<1|0>` (content addressing holds for hot-type files in the log) and ` final=<1|0>`
+   (inv_b on the last state). *)
 let log_case line =
   let t = toks line in
   let nt = ni t in
@@ -87,7 +88,8 @@ let log_case line =
     x := x';
     if !bad < 0 && not (inv_b kind !x) then bad := idx
   done;
-  (if !bad < 0 then Printf.sprintf "ok %d" n else Printf.sprintf "viol %d" !bad) ^ (if !ca then " ca=1" else " ca=0")
+  (if !bad < 0 then Printf.sprintf "ok %d" n else Printf.sprintf "viol %d" !bad)
+  ^ (if !ca then " ca=1" else " ca=0") ^ (if inv_b kind !x then " final=1" else " final=0")
 
 (* repair mode: `ntree tree_id*  nh (ft id len hash)*  nc (ft id len hash)*`
    content abstracted to a list of `len` elements all equal to hash (so that size = len).
